@@ -36,13 +36,16 @@ ExportSeqs ==
    "stdlibname" - module 2 is called like a module of the standard library (sub/logging.py) and some package __init__ does 'import logging'
                   (export target 0 = that standard-library module): nothing of the package is re-exported.
    "exccls"     - class 1 derives from Exception.
+   "privtwin" / "privtwindeep" - module 2 has the same name as the public module 1 but lives in a private package (_hid/m, above module 1 in the
+                  tree, or sub/deep/_hid/m, below it): declaration 2 is not public.
    "pkgmodreexp" - declaration 1 is written into the package file sub/deep/__init__.py, declaration 2 into sub/__init__.py, which also
                   re-exports the package deep as a module ('from . import deep'). *)
-Variants == {"distinct", "samename", "suffix", "samemodule", "initdecl", "sharedbase", "suffixalias", "stdlibname", "exccls", "pkgmodreexp"}
+Variants == {"distinct", "samename", "suffix", "samemodule", "initdecl", "sharedbase", "suffixalias", "stdlibname", "exccls", "pkgmodreexp", "privtwin", "privtwindeep"}
 Universe == { [kind |-> k, exports |-> e, variant |-> "distinct"] : k \in Kinds, e \in ExportSeqs }
              \cup { [kind |-> k, exports |-> << Exp(a, 1, x) >>, variant |-> v] : k \in Kinds, a \in {0, 1, 2}, x \in {"", "AliasA"}, v \in {"samename", "suffix"} }
              \cup { [kind |-> k, exports |-> << Exp(a, 1, "") >>, variant |-> "samemodule"] : k \in Kinds, a \in {0, 1, 3} }
              \cup { [kind |-> k, exports |-> << >>, variant |-> "initdecl"] : k \in Kinds }
+             \cup { [kind |-> k, exports |-> e, variant |-> v] : k \in Kinds, e \in { << >>, << Exp(0, 1, "") >> }, v \in {"privtwin", "privtwindeep"} }
              \cup { [kind |-> k, exports |-> << Exp(1, 1, "") >>, variant |-> "pkgmodreexp"] : k \in Kinds }
              \cup { [kind |-> "class", exports |-> e, variant |-> "exccls"] : e \in { << >>, << Exp(0, 1, "") >> } }
              \cup { [kind |-> k, exports |-> << Exp(a, 0, "") >>, variant |-> "stdlibname"] : k \in Kinds, a \in {0, 1, 3} }
@@ -60,9 +63,11 @@ ExposedNames(s, at, t) ==
   { BoundName(s.exports[j]) : j \in { j \in 1..Len(s.exports) : s.exports[j].at = at /\ s.exports[j].tgt = t
                                        /\ \A m \in (j + 1)..Len(s.exports) : ~(s.exports[m].at = at /\ BoundName(s.exports[m]) = BoundName(s.exports[j])) } }
 PublicDecl(s, t) ==
+  IF s.variant \in {"privtwin", "privtwindeep"} THEN t = 1 ELSE
   IF s.variant \in {"distinct", "samemodule", "initdecl", "sharedbase", "suffixalias", "stdlibname", "exccls", "pkgmodreexp"} THEN TRUE
   ELSE t = 1 /\ \E a \in Ats : Exposes(s, a, 1)       \* private modules: public only through the re-export, and only the re-exported declaration
-ModHomeV(s, t) == IF s.variant = "pkgmodreexp" THEN (IF t = 1 THEN <<"sub", "deep">> ELSE <<"sub">>) ELSE IF s.variant = "stdlibname" /\ t = 2 THEN <<"sub", "logging">> ELSE IF s.variant = "sharedbase" THEN <<"sub", "deep", "moda">> ELSE IF s.variant = "initdecl" /\ t = 1 THEN <<"sub", "deep">> ELSE IF s.variant = "samemodule" THEN (IF t = 1 THEN <<"sub", "deep", "modsame">> ELSE <<"sub", "modsame">>) ELSE ModHome(t)
+ModHomeV(s, t) == IF s.variant = "privtwin" THEN (IF t = 1 THEN <<"sub", "deep", "modsame">> ELSE <<"_hid", "modsame">>)
+                  ELSE IF s.variant = "privtwindeep" THEN (IF t = 1 THEN <<"sub", "deep", "modsame">> ELSE <<"sub", "deep", "_hid", "modsame">>) ELSE IF s.variant = "pkgmodreexp" THEN (IF t = 1 THEN <<"sub", "deep">> ELSE <<"sub">>) ELSE IF s.variant = "stdlibname" /\ t = 2 THEN <<"sub", "logging">> ELSE IF s.variant = "sharedbase" THEN <<"sub", "deep", "moda">> ELSE IF s.variant = "initdecl" /\ t = 1 THEN <<"sub", "deep">> ELSE IF s.variant = "samemodule" THEN (IF t = 1 THEN <<"sub", "deep", "modsame">> ELSE <<"sub", "modsame">>) ELSE ModHome(t)
 AllowedHomes(s, t) == { ModHomeV(s, t) } \cup { PkgPath(at) : at \in { a \in Ats : Exposes(s, a, t) } }
 AllowedNames(s, t) == { DName(t) } \cup UNION { ExposedNames(s, a, t) : a \in Ats }
 Targets(s) == {1} \cup { s.exports[j].tgt : j \in 1..Len(s.exports) }
@@ -106,9 +111,9 @@ Judge(s, obs) ==
   UNION { LET d == obs.decls[j]
               n == Len(d.occs)
           IN IF ~PublicDecl(s, d.tgt)
-             THEN (IF n > 0 THEN { [property |-> "C04", clause |-> "NoLeak", sig |-> "u2:" \o s.variant \o ":" \o s.kind \o (IF s.exports[1].alias = "" THEN ":by-name" ELSE ":by-alias"),
+             THEN (IF n > 0 THEN { [property |-> "C04", clause |-> "NoLeak", sig |-> "u2:" \o s.variant \o ":" \o s.kind \o (IF Len(s.exports) = 0 THEN ":not-re-exported" ELSE IF s.exports[1].alias = "" THEN ":by-name" ELSE ":by-alias"),
                                     expected |-> "0 occurrences", observed |-> ToString(n)] } ELSE {})
-                  \cup (IF d.jsonpublic = "true" THEN { [property |-> "C04", clause |-> "Flags", sig |-> "u2:" \o s.variant \o ":" \o s.kind \o (IF s.exports[1].alias = "" THEN ":by-name" ELSE ":by-alias"),
+                  \cup (IF d.jsonpublic = "true" THEN { [property |-> "C04", clause |-> "Flags", sig |-> "u2:" \o s.variant \o ":" \o s.kind \o (IF Len(s.exports) = 0 THEN ":not-re-exported" ELSE IF s.exports[1].alias = "" THEN ":by-name" ELSE ":by-alias"),
                                                         expected |-> "false", observed |-> "true"] } ELSE {})
              ELSE
              (IF n = 0 THEN { [property |-> "C03", clause |-> "ExactlyOnce", sig |-> "u2:dropped:" \o Shape(s), expected |-> "1", observed |-> "0"] } ELSE {})
